@@ -108,6 +108,7 @@ def gen_config(r):
                          'ip_unresolvable': r.chance(0.1),
                          'tmpdir_is_symlink': r.chance(0.2),
                          'outputs_keep_fixed_mtime': r.chance(0.2),
+                         'symlinked_dir_bystander': r.chance(0.15),
                          'default_encoding': r.weighted([(9, None),
                                                          (1, 'cp1252')])},
             'clock0': base.isoformat()}
@@ -575,6 +576,18 @@ def execute(plan):
                     os.utime(p, (fut, fut))
                     sim.ctimes[os.path.abspath(p)] = -3600.0
                     ctx.stats['faults']['bystander_dated_in_the_future'] += 1
+            if cfg['identity'].get('symlinked_dir_bystander'):
+                # the working directory holds a link to a directory of old
+                # files kept elsewhere
+                real = W.path('elsewhere', 'docs')
+                os.makedirs(real, exist_ok=True)
+                for nm in ('old notes.txt', 'LICENSE'):
+                    with io.open(os.path.join(real, nm), 'wb') as f:
+                        f.write(b'kept since long ago\n')
+                if not os.path.lexists(W.path('cwd', 'docs-link')):
+                    os.makedirs(W.path('cwd'), exist_ok=True)
+                    os.symlink(real, W.path('cwd', 'docs-link'))
+                ctx.stats['probes']['symlinked_directory_of_old_files'] += 1
             with Patches(gentest, sim, W, ident):
                 ctx.last_gen = None
                 ctx.baseline_pass = None
